@@ -44,7 +44,7 @@ fn op_kind(d: &Dest) -> Option<char> {
 /// Execute a history on ShapeWriter (complete = false) or the complete Writer.
 /// `dests`: the three destinations (dbf unused for ShapeWriter). The fault plan, if any, is
 /// already installed in one of them.
-fn execute(hist: &[Call], shapes: &[Shape], dests: &[Dest; 3], complete: bool) -> Run {
+fn execute(hist: &[Call], shapes: &[Shape], dests: &[Dest; 3], complete: bool, kind: u8, stay_broken: bool) -> Run {
     let mut run = Run { bytes: vec![], problems: vec![], fault_fired: false, fault_call: None, fault_kind: None, retried: false };
     let set_epoch = |e: usize| {
         for d in dests.iter() {
@@ -83,8 +83,23 @@ fn execute(hist: &[Call], shapes: &[Shape], dests: &[Dest; 3], complete: bool) -
             if fired_in(9000) {
                 fault_call = Some("drop");
             }
+        } else if kind == 2 {
+            // the consuming bulk route: every shape of the history in ONE write_shapes call
+            let w = ShapeWriter::with_shx(dests[0].clone(), dests[1].clone());
+            let tail: Vec<&Shape> = hist.iter().filter_map(|c| if let Call::W(si) = c { Some(&shapes[*si]) } else { None }).collect();
+            set_epoch(1);
+            let res = crate::e_c09::write_tail(w, &tail);
+            let fired = fired_in(1);
+            match (&res, fired) {
+                (Ok(()), true) => problems.push(("write_shapes/swallowed".into(), J::UInt(0))),
+                (Err(er), false) => problems.push(("write_shapes/spurious-error".into(), J::s(err_class(er)))),
+                _ => {}
+            }
+            if fired {
+                fault_call = Some("write_shapes");
+            }
         } else {
-            let mut w = ShapeWriter::with_shx(dests[0].clone(), dests[1].clone());
+            let mut w = if kind == 1 { ShapeWriter::new(dests[0].clone()) } else { ShapeWriter::with_shx(dests[0].clone(), dests[1].clone()) };
             for (i, c) in hist.iter().enumerate() {
                 let e = i + 1;
                 set_epoch(e);
@@ -116,7 +131,22 @@ fn execute(hist: &[Call], shapes: &[Shape], dests: &[Dest; 3], complete: bool) -
                             fault_call = Some("finalize");
                         }
                         if res.is_err() {
-                            // the destination works again: a second finalize must complete the files
+                            let still_failing = dests.iter().any(|d| {
+                                let s = d.0.borrow();
+                                s.fault.persistent && s.fault.at.is_some()
+                            });
+                            if still_failing {
+                                // the destination is still broken: a second finalize cannot succeed either
+                                set_epoch(4000 + e);
+                                if w.finalize().is_ok() {
+                                    problems.push(("finalize/second-attempt-on-a-broken-destination-swallowed".into(), J::UInt(i as u64)));
+                                }
+                                if stay_broken {
+                                    // ... and the writer is let go while its destination is still failing
+                                    break;
+                                }
+                            }
+                            // the destination works again: one more finalize must complete the files
                             for d in dests.iter() {
                                 d.heal();
                             }
@@ -125,6 +155,15 @@ fn execute(hist: &[Call], shapes: &[Shape], dests: &[Dest; 3], complete: bool) -
                             if let Err(er) = w.finalize() {
                                 problems.push(("finalize/retry-failed".into(), J::s(err_class(&er))));
                                 break;
+                            }
+                            // "completes both files": the retry has to reach the flush of every destination
+                            let ndest = if kind == 1 { 1 } else { 2 };
+                            for (di, d) in dests.iter().take(ndest).enumerate() {
+                                let ops = d.ops_in_epoch(5000 + e);
+                                let flushed = ops.iter().rposition(|o| matches!(o, Op::Flush)).map(|f| !ops[f..].iter().any(|o| matches!(o, Op::Write(..)))).unwrap_or(false);
+                                if !flushed {
+                                    problems.push(("finalize/retry-did-not-flush".into(), J::s(["shp", "shx"][di])));
+                                }
                             }
                         }
                     }
@@ -193,34 +232,48 @@ pub fn run(ctx: &Ctx) -> Report {
             hists.push((0..2300).map(|i| Call::W(i % 3)).chain([Call::F, Call::W(0), Call::F]).collect());
         }
     }
-    let items: Vec<(i32, usize, bool)> = types.iter().flat_map(|&t| (0..hists.len()).flat_map(move |h| [false, true].into_iter().map(move |c| (t, h, c)))).collect();
+    // writer kinds: 0 ShapeWriter::with_shx, 1 the complete Writer, 2 ShapeWriter::new (no index
+    // destination), 3 ShapeWriter::with_shx driven through ONE consuming write_shapes call
+    let items: Vec<(i32, usize, u8)> = types.iter().flat_map(|&t| (0..hists.len()).flat_map(move |h| (0..4u8).map(move |wk| (t, h, wk)))).collect();
     let mut rep = par(ctx, items.len(), |idx, rep| {
-        let (t, hi, complete) = items[idx];
+        let (t, hi, wk) = items[idx];
+        let complete = wk == 1;
+        let kind: u8 = match wk {
+            2 => 1,
+            3 => 2,
+            _ => 0,
+        };
         let hist = &hists[hi];
         let long = hist.len() > 100;
-        if long && !matches!(t, 1 | 23) {
-            return; // the long histories run for two types
+        if long && (!matches!(t, 1 | 23) || wk >= 2) {
+            return; // the long histories run for two types and the two main writer kinds
         }
         if complete && hist.contains(&Call::F) && hi != 0 && !long {
             return; // the complete writer has no finalize; it runs the W-only projection of history 0 and the W-only histories
         }
-        let hist: Vec<Call> = if complete { hist.iter().filter(|c| **c != Call::F).cloned().collect() } else { hist.clone() };
+        if wk == 3 && hi != 0 {
+            return; // the bulk route runs the W-only projection of history 0
+        }
+        if cfg!(miri) && wk >= 2 && hi != 0 {
+            return;
+        }
+        let hist: Vec<Call> = if complete || wk == 3 { hist.iter().filter(|c| **c != Call::F).cloned().collect() } else { hist.clone() };
         let mut r = Rng::derive(ctx.seed, &[tag("c12"), t as u64]);
         let shapes: Vec<Shape> = vec![
             gen::shape_exact(t, &mut r, &Cfg::plain(1, 2), 1, 2),
             gen::shape_exact(t, &mut r, &Cfg::plain(2, 3), 2, 3),
             gen::shape_exact(t, &mut r, &Cfg::plain(3, 4), 3, 4),
         ];
-        let wname = if complete { "Writer" } else { "ShapeWriter" };
+        let wname = ["ShapeWriter", "Writer", "ShapeWriter::new(no index)", "ShapeWriter+write_shapes(bulk)"][wk as usize];
         // undisturbed run: golden bytes and the number of operations per destination
         let golden_dests = [Dest::new(), Dest::new(), Dest::new()];
-        let golden = execute(&hist, &shapes, &golden_dests, complete);
+        let golden = execute(&hist, &shapes, &golden_dests, complete, kind, false);
         if !golden.problems.is_empty() {
             rep.violation(&format!("undisturbed/{}", golden.problems[0].0), &format!("c12:t{}:h{}:{}", t, hi, wname), J::obj(vec![("history", J::s(hist_str(&hist)))]));
             return;
         }
         let n_ops: Vec<usize> = golden_dests.iter().map(|d| d.n_ops()).collect();
-        let ndest = if complete { 3 } else { 2 };
+        let ndest = if complete { 3 } else if kind == 1 { 1 } else { 2 };
         for di in 0..ndest {
             let golden_ops = golden_dests[di].ops();
             for k in 0..n_ops[di] + 2 {
@@ -247,11 +300,17 @@ pub fn run(ctx: &Ctx) -> Report {
                         continue;
                     }
                     let dests = [Dest::new(), Dest::new(), Dest::new()];
-                    dests[di].0.borrow_mut().fault = crate::iomon::FaultPlan { at: Some(k), persistent, interrupted_flush: mode == 2 };
+                    // the kind of the injected error rotates with the fault point (Other, WouldBlock,
+                    // TimedOut, BrokenPipe, PermissionDenied, WriteZero, UnexpectedEof)
+                    dests[di].0.borrow_mut().fault = crate::iomon::FaultPlan { at: Some(k), persistent, interrupted_flush: mode == 2, error_kind: (k % 7) as u8 };
+                    let stay_broken = persistent && k % 2 == 1;
+                    if stay_broken {
+                        rep.count("writers_let_go_while_the_destination_was_still_failing", 1);
+                    }
                     if mode == 2 {
                         rep.count("interrupted_flush_faults", 1);
                     }
-                    let run = execute(&hist, &shapes, &dests, complete);
+                    let run = execute(&hist, &shapes, &dests, complete, kind, stay_broken);
                     rep.eval();
                     rep.nontrivial(&case);
                     let kind = match run.fault_kind {
@@ -314,7 +373,7 @@ pub fn run(ctx: &Ctx) -> Report {
                 continue;
             }
             let dests = [Dest::with_chunking(sch.clone()), Dest::with_chunking(sch.clone()), Dest::with_chunking(sch.clone())];
-            let run = execute(&hist, &shapes, &dests, complete);
+            let run = execute(&hist, &shapes, &dests, complete, kind, false);
             rep.eval();
             rep.class("short-write schedule");
             rep.count("short_write_schedules", 1);
@@ -324,6 +383,33 @@ pub fn run(ctx: &Ctx) -> Report {
                     &case,
                     J::obj(vec![("type", J::s(type_name(t))), ("history", J::s(hist_str(&hist))), ("writer", J::s(wname)), ("schedule", J::s(format!("{:?}", sch))), ("problems", J::Arr(run.problems.iter().map(|(p, _)| J::s(p.clone())).collect()))]),
                 );
+            }
+        }
+        // ---- short writes again with shapes of 33 / 65 / 300 vertices per part (blocks, buffers)
+        if wk == 0 && hi == 0 && !cfg!(miri) {
+            let big: Vec<Shape> = if gen::is_point(t) {
+                shapes.iter().map(crate::shapes::clone_shape).collect()
+            } else {
+                vec![gen::shape_exact(t, &mut r, &Cfg::plain(1, 2), 1, 33), gen::shape_exact(t, &mut r, &Cfg::plain(2, 3), 2, 65), gen::shape_exact(t, &mut r, &Cfg::plain(3, 4), 3, 300)]
+            };
+            let gd = [Dest::new(), Dest::new(), Dest::new()];
+            let g = execute(&hist, &big, &gd, false, 0, false);
+            for (si, sch) in schedules.iter().enumerate() {
+                if si % 4 != 0 && si > 9 {
+                    continue;
+                }
+                let case = format!("c12:t{}:h{}:{}:big-chunk{}", t, hi, wname, si);
+                if !ctx.want(&case) {
+                    continue;
+                }
+                let dests = [Dest::with_chunking(sch.clone()), Dest::with_chunking(sch.clone()), Dest::with_chunking(sch.clone())];
+                let run = execute(&hist, &big, &dests, false, 0, false);
+                rep.eval();
+                rep.class("short-write schedule (parts of 33..300 vertices)");
+                rep.count("short_write_schedules_with_large_parts", 1);
+                if !run.problems.is_empty() || run.bytes != g.bytes {
+                    rep.violation("write/short-write-diff", &case, J::obj(vec![("type", J::s(type_name(t))), ("history", J::s(hist_str(&hist))), ("schedule", J::s(format!("{:?}", sch))), ("shapes", J::s("1 x 33, 2 x 65, 3 x 300 vertices"))]));
+                }
             }
         }
     });
